@@ -21,7 +21,7 @@ import (
 
 func TestMain(m *testing.M) {
 	kit.Main(m, "C01", "exploration",
-		"rapid state machine over the real SDK (1-3 factories with drawn policies sharing one store+KMS, virtual clock): "+
+		"rapid state machine over the real SDK (1-3 factories (with a region-suffixing metastore possibly in different regions over one global key table) with drawn policies sharing one store+KMS, virtual clock): "+
 			"encrypt/store, decrypt/load, open/close, restart, clock advance past interval/expiry, out-of-band revoke, rotation by a reference writer, eviction pressure. "+
 			"One evaluation = one history. Non-trivial = the history contains a decrypt of a record whose IK/SK was expired, rotated, revoked, whose writer restarted, or that is read by another process; "+
 			"distinct = distinct sets of (decrypt-condition flags, cache class) occurring in a history",
@@ -42,7 +42,7 @@ func TestWorldReal(t *testing.T) {
 }
 
 func runHistory(t *rapid.T, real bool) {
-	opts := world.Options{RealSecrets: real, NoRetainAEAD: true}
+	opts := world.Options{RealSecrets: real, NoRetainAEAD: true, PerProcRegion: true}
 	// a third of the histories run over a real Metastore implementation (over its fake database)
 	defer backing.Use(t, &opts, 33)()
 	w := world.New(t, opts)
